@@ -397,6 +397,8 @@ func (f *FnEnc) doAppend(x ssa.Value, c *ssa.CallCommon) {
 		fits, na, s.T, A, s.T, s.T, A)
 	f.emit("(assert (forall ((a Int) (i Int)) (! %s :pattern ((select (select %s a) i)))))", body, A2)
 	_ = es
+	// redundant but useful: arrays other than the destination are untouched as a whole
+	f.emit("(assert (forall ((a Int)) (! (=> (not (= a (sl.arr %s))) (= (select %s a) (select %s a))) :pattern ((select %s a)))))", res, A2, A, A2)
 	f.st.comps[ac] = A2
 	f.vals[x] = Val{res, "Slice"}
 	if p, ok := f.provs[c.Args[0]]; ok {
